@@ -247,7 +247,7 @@ CtlRequest(m, k, d, p) ==
               ELSE [m EXCEPT !.q = Append(@, <<m.org, d, k, p>>), !.ts.ot = ot]
     IN Log(m1, <<"t", m.org, k, d>>)
 
-MaskBit(mask, i) == (mask \div (2 ^ (i - 1))) % 2 = 1
+MaskBit(mask, i) == i <= 30 /\ (mask \div (2 ^ (i - 1))) % 2 = 1      \* (masks stay below 2^30; TLC integers are 32-bit)
 SelectSeqIdx(seq, Keep(_)) ==
     LET RECURSIVE F(_)
         F(i) == IF i > Len(seq) THEN <<>> ELSE (IF Keep(i) THEN <<seq[i]>> ELSE <<>>) \o F(i + 1)
